@@ -8,6 +8,7 @@ import DisjointImpls.RevSub
 import DisjointImpls.Key
 import DisjointImpls.Bounds
 import DisjointImpls.Lemmas.MatchSound
+import DisjointImpls.Lemmas.RevSubLemmas
 open DI
 
 def rToSx : R → Sx
@@ -41,8 +42,12 @@ def handle (cmd : String) (args : List Sx) : Sx :=
   | "revsub", [a, b, bounded, tr] =>
       match sup a b with
       | .yes σ _ =>
+          let res := substituteBound σ bounded tr
+          -- hypotheses and conclusion of C10_bound_roundtrip / C10_nodup evaluated on this case
+          let hyp := untouched σ bounded && untouched σ tr
+          let concl := res.all (fun (x, y) => inst σ x == bounded && inst σ y == tr)
           .list [.sym "yes", Subst.toSx σ,
-            .list ((substituteBound σ bounded tr).map (fun (x, y) => .list [x.toSx, y.toSx]))]
+            .list (res.map (fun (x, y) => .list [x.toSx, y.toSx])), boolSx hyp, boolSx concl]
       | r => rToSx r
   | "tb", [p, q] =>
       .list [.sym "tb", b3ToSx (tbEq p q), b3ToSx (tbEq q p),
